@@ -102,11 +102,11 @@ impl Client {
     }
 }
 
-fn s(x: &str) -> Vec<u8> {
+pub fn s(x: &str) -> Vec<u8> {
     x.as_bytes().to_vec()
 }
 
-fn as_map(f: &BytesFrame) -> Option<HashMap<String, &BytesFrame>> {
+pub fn as_map(f: &BytesFrame) -> Option<HashMap<String, &BytesFrame>> {
     match f {
         BytesFrame::Map { data, .. } => {
             let mut m = HashMap::new();
@@ -122,22 +122,22 @@ fn as_map(f: &BytesFrame) -> Option<HashMap<String, &BytesFrame>> {
         _ => None,
     }
 }
-fn as_u64(f: &BytesFrame) -> Option<u64> {
+pub fn as_u64(f: &BytesFrame) -> Option<u64> {
     match f {
         BytesFrame::Number { data, .. } => (*data).try_into().ok(),
         _ => None,
     }
 }
-fn as_bytes(f: &BytesFrame) -> Option<Vec<u8>> {
+pub fn as_bytes(f: &BytesFrame) -> Option<Vec<u8>> {
     match f {
         BytesFrame::SimpleString { data, .. } | BytesFrame::BlobString { data, .. } => Some(data.to_vec()),
         _ => None,
     }
 }
-fn as_str(f: &BytesFrame) -> Option<String> {
+pub fn as_str(f: &BytesFrame) -> Option<String> {
     as_bytes(f).and_then(|b| String::from_utf8(b).ok())
 }
-fn is_err(f: &BytesFrame) -> Option<String> {
+pub fn is_err(f: &BytesFrame) -> Option<String> {
     match f {
         BytesFrame::SimpleError { data, .. } => Some(data.to_string()),
         BytesFrame::BlobError { data, .. } => Some(String::from_utf8_lossy(data).to_string()),
